@@ -338,7 +338,43 @@ def main(argv=None):
             results = pool.map(run_unit, work, chunksize=1)
     else:
         results = [run_unit(w) for w in work]
+    results = retry_flaky(prop, a, work, results)
     return report(prop, a, api, results, t0, seed)
+
+
+def retry_flaky(prop, a, work, results):
+    """Solver verdicts must not flip with machine load: a unit that came back with an `unknown` obligation, with fewer
+    obligation labels than the lock file lists, or crashed in the worker pool is re-run ONCE, a few units at a time, with
+    the solver budget tripled. Refutations and discharged units are never re-run (a retry can only turn unknown into a
+    verdict, not a violation into silence)."""
+    import re as _re
+    lock_path = os.path.join(VERIF, "obligations.lock.json")
+    lock = json.load(open(lock_path)).get(prop, {}) if os.path.exists(lock_path) else {}
+    again = []
+    for i, r in enumerate(results):
+        if r.get("assumed") or r.get("kind") == "custom":
+            continue
+        verdicts = [d.get("verdict") for d in r.get("obligations", [])]
+        if "refuted" in verdicts:
+            continue
+        labs = {_re.sub(r"@L\d+", "", d["name"].split("#")[0]) for d in r.get("obligations", []) if "name" in d}
+        want = {_re.sub(r"@L\d+", "", x) for x in lock.get(r["unit"], [])}
+        if "unknown" in verdicts or r.get("crash") or (want and not want <= labs and not r.get("error") and not a.only):
+            again.append(i)
+    if not again:
+        return results
+    os.environ["PYVC_BUDGET_FACTOR"] = "3"
+    try:
+        redo = [work[i] for i in again]
+        ctx = mp.get_context("fork")
+        with ctx.Pool(min(4, len(redo))) as pool:
+            new = pool.map(run_unit, redo, chunksize=1)
+    finally:
+        os.environ.pop("PYVC_BUDGET_FACTOR", None)
+    for i, r in zip(again, new):
+        r["retried"] = True
+        results[i] = r
+    return results
 
 
 def report(prop, a, api, results, t0, seed):
